@@ -77,3 +77,9 @@ Qed.
 Theorem C01_text_fixpoint_core3_nonvacuous :
   BareWordParse.core3_doc BareWordEx.ex_bare = true /\ BareWord.lex_safe3_doc BareWordEx.ex_bare = true.
 Proof. exact (conj BareWordEx.ex_bare_core BareWordEx.ex_bare_safe). Qed.
+
+(* the grammar sentinel is tried exactly at the end of the leading blank lines (Lexer.init_state is written against this text) *)
+Theorem C01_pin_lexer_sentinel :
+  lexer_sentinel_guard = pinned_lexer_sentinel_guard /\ lexer_sentinel_pos = pinned_lexer_sentinel_pos /\
+  lexer_leading_blank_pattern = pinned_lexer_leading_blank_pattern.
+Proof. exact (conj pin_lexer_sentinel_guard (conj pin_lexer_sentinel_pos pin_lexer_leading_blank_pattern)). Qed.
